@@ -50,22 +50,21 @@ def _knob_queries():
     se = [None, False, 2, 3, 8]
     so = [None, 1, 2, 3, True]
     sm = [None, "tasks", "disk"]
-    q.append(("sum", lambda L, R: L.v.sum(), lambda L, R, k: L.v.sum(split_every=k["se"]), {"se": se}, False))
-    q.append(("frame_max", lambda L, R: L[["v", "w"]].max(), lambda L, R, k: L[["v", "w"]].max(split_every=k["se"]), {"se": se}, False))
-    q.append(("nunique", lambda L, R: L.k.nunique(), lambda L, R, k: L.k.nunique(split_every=k["se"]), {"se": se}, False))
-    q.append(("count", lambda L, R: L.count(), lambda L, R, k: L.count(split_every=k["se"]), {"se": se}, False))
+    q.append(("sum", lambda L, R: L.v.sum(), lambda L, R, k: L.v.sum(**_kw(split_every=k["se"])), {"se": se}, False))
+    q.append(("frame_max", lambda L, R: L[["v", "w"]].max(), lambda L, R, k: L[["v", "w"]].max(**_kw(split_every=k["se"])), {"se": se}, False))
+    q.append(("nunique", lambda L, R: L.k.nunique(), lambda L, R, k: L.k.nunique(**_kw(split_every=k["se"])), {"se": se}, False))
+    q.append(("count", lambda L, R: L.count(), lambda L, R, k: L.count(**_kw(split_every=k["se"])), {"se": se}, False))
     q.append(("gb_sum", lambda L, R: L.groupby("k")[["v", "w"]].sum(),
-              lambda L, R, k: L.groupby("k")[["v", "w"]].sum(split_every=k["se"], split_out=k["so"]), {"se": se, "so": so}, True))
+              lambda L, R, k: L.groupby("k")[["v", "w"]].sum(**_kw(split_every=k["se"], split_out=k["so"])), {"se": se, "so": so}, True))
     q.append(("gb_agg2", lambda L, R: L.groupby(["k", "g"]).agg({"v": "max", "w": "count"}),
-              lambda L, R, k: L.groupby(["k", "g"]).agg({"v": "max", "w": "count"}, split_every=k["se"], split_out=k["so"],
-                                                       **({"shuffle_method": k["sm"]} if k["sm"] else {})),
+              lambda L, R, k: L.groupby(["k", "g"]).agg({"v": "max", "w": "count"}, **_kw(split_every=k["se"], split_out=k["so"], shuffle_method=k["sm"])),
               {"se": [None, 2], "so": so, "sm": sm}, True))
     q.append(("value_counts", lambda L, R: L.k.value_counts(),
-              lambda L, R, k: L.k.value_counts(split_every=k["se"], split_out=k["so"]), {"se": [None, 2], "so": so}, True))
+              lambda L, R, k: L.k.value_counts(**_kw(split_every=k["se"], split_out=k["so"])), {"se": [None, 2], "so": so}, True))
     q.append(("unique", lambda L, R: pd.Series(L.g.unique(), name="g"),
-              lambda L, R, k: L.g.unique(split_every=k["se"], split_out=k["so"]), {"se": [None, 2], "so": so}, True))
+              lambda L, R, k: L.g.unique(**_kw(split_every=k["se"], split_out=k["so"])), {"se": [None, 2], "so": so}, True))
     q.append(("drop_duplicates", lambda L, R: L[["k", "g"]].drop_duplicates(),
-              lambda L, R, k: L[["k", "g"]].drop_duplicates(split_every=k["se"], split_out=k["so"]), {"se": [None, 2], "so": so}, True))
+              lambda L, R, k: L[["k", "g"]].drop_duplicates(**_kw(split_every=k["se"], split_out=k["so"])), {"se": [None, 2], "so": so}, True))
     for how in ("inner", "left", "right", "outer"):
         q.append((f"merge_{how}", lambda L, R, how=how: L.merge(R, on="k", how=how),
                   lambda L, R, k, how=how: L.merge(R, on="k", how=how, broadcast=k["bc"],
@@ -86,6 +85,11 @@ def _knob_queries():
                                         **({"npartitions": k["np"]} if k["np"] else {})),
               {"mb": [None, 2, 3, 4, 8], "sm": sm, "np": [None, 3, 9]}, True))
     return q
+
+
+def _kw(**kw):
+    """keyword arguments with the None-valued knobs left out (None = do not pass the knob)"""
+    return {k: v for k, v in kw.items() if v is not None}
 
 
 def _grid(g):
